@@ -37,7 +37,7 @@ def _libc_mem(E, st, target):
     st.flags = None
 
 
-def run(obj, sym, args, insn_budget=2000000, loop_bound=2, time_budget=600.0):
+def run(obj, sym, args, insn_budget=2000000, loop_bound=2, time_budget=7200.0):   # the instruction budget is the bound; wall time only a safety net (load-independent verdicts)
     """args: list of ('ptr', name, size, secret, writable) | ('val', int) | ('sym', name, secret) in System V order.
     Returns dict(result held|violated|inconclusive, leaks[...], steps, paths)."""
     reset_size_cache()
